@@ -169,4 +169,501 @@ theorem newLispError_idempotent {e r : E} {c : Carrier} (h : newLispError e c = 
       | none => cases hp : posOf c <;> simp [reposition, newLispError, hg, hp]
     | _ => cases hp : posOf c <;> simp [reposition, newLispError, hg, hp]
 
+example : reposAll (.val (.int 5)) [.nil, .posPtr none, .list (some ⟨2, {}⟩), .symbol (some ⟨3, {}⟩)]
+    = .ok (.lisp (.val (.int 5)) (some ⟨2, {}⟩)) := rfl
+example : firstSome [none, none, some ⟨2, {}⟩, some ⟨3, {}⟩] = some ⟨2, {}⟩ := by decide
+
+/-! ### 3. re-positioning and `NewGoError` never lose reachability under `errors.Is` (C03) -/
+
+/-- a `LispError` struct (as opposed to its payload) -/
+def isLisp : E → Bool | .lisp _ _ => true | _ => false
+
+theorem goEq_plain_left {e : E} (he : isErrorValue e = true) (hl : isLisp e = false) (y : E) :
+    ∃ b, goEq e y = .ok b := by
+  cases e <;> cases y <;> simp_all [goEq, isErrorValue, isLisp]
+
+theorem lispIs_plain {x t : E} (hx : isLisp x = false) (ht : isNil t = false) :
+    lispIs x t = isTail x t := by
+  cases x <;> simp_all [isLisp, lispIs]
+
+theorem isLoop_wrap_step {e t : E} (id : Nat) (n : String) (he : isErrorValue e = true)
+    (h : isLoop e t = .ok true) : isLoop (.wrap id n e) t = .ok true := by
+  obtain ⟨b, hb⟩ := goEq_plain_left (e := .wrap id n e) rfl rfl t
+  cases b <;> simp [isLoop, hb, he, h]
+
+theorem isLoop_lisp_step {e t : E} (p : Cursor) (he : isErrorValue e = true) (hl : isLisp e = false)
+    (ht : isNil t = false) (h : isLoop e t = .ok true) : isLoop (.lisp e p) t = .ok true := by
+  rw [isLoop, lispIs_plain hl ht]
+  cases t with
+  | lisp y q =>
+    obtain ⟨b, hb⟩ := goEq_plain_left he hl y
+    cases b <;> cases hq : ptrEq p q <;> simp [goEq, isTail, hb, hq, he, h]
+  | _ => simp [goEq, isTail, he, h]
+
+theorem isLoop_lisp_cursor {x t : E} (p p' : Cursor) (hl : isLisp x = false)
+    (ht : isNil t = false) (h : isLoop (.lisp x p) t = .ok true) : isLoop (.lisp x p') t = .ok true := by
+  rw [isLoop, lispIs_plain hl ht] at h ⊢
+  cases t with
+  | lisp y q =>
+    cases hb : goEq x y with
+    | panic => simp [goEq, hb] at h
+    | ok b =>
+      cases b
+      · simpa [goEq, isTail, hb] using h
+      · cases hq : ptrEq p' q <;> simp [goEq, isTail, hb, hq]
+  | _ => simpa [goEq] using h
+
+/-- No `LispError` sits directly in the `err` field of a `LispError` (it may sit deeper, under a
+`*fmt.wrapError`).  Every object the package's constructors build is of this shape (`flat_newLispError`,
+`flat_newGoError`): `NewLispError` never nests, `NewGoError` puts a `*fmt.wrapError` in between. -/
+def Flat : E → Bool
+  | .wrap _ _ inner => Flat inner
+  | .lisp x _ => !isLisp x && Flat x
+  | _ => true
+
+/-- one step of an error's way up: a Go builtin's error wrapped by `NewGoError(name, ·)` (lib/call), or the
+evaluator adding a position with `NewLispError(·, carrier)` -/
+inductive Frame where
+  | goErr (id : Nat) (name : String)
+  | repos (c : Carrier)
+
+def applyFrame : Frame → E → Outcome E
+  | .goErr id name, e => .ok (newGoError id name e)
+  | .repos c, e => newLispError e c
+
+/-- a context: frames applied innermost first -/
+def applyFrames : List Frame → E → Outcome E
+  | [], e => .ok e
+  | f :: fs, e =>
+    match applyFrame f e with
+    | .ok e' => applyFrames fs e'
+    | .panic => .panic
+
+theorem flat_reposition {e : E} (p : Cursor) (he : Flat e = true) : Flat (reposition e p) = true := by
+  cases e with
+  | lisp x q => cases q <;> simpa [reposition, Flat] using he
+  | _ => simp_all [reposition, Flat, isLisp]
+
+theorem flat_newLispError {e r : E} {c : Carrier} (he : Flat e = true) (h : newLispError e c = .ok r) :
+    Flat r = true := by
+  rw [newLispError_eq h]; exact flat_reposition _ he
+
+theorem flat_newGoError {e : E} (id : Nat) (n : String) (he : Flat e = true) : Flat (newGoError id n e) = true := by
+  unfold newGoError; split <;> simp [Flat, isLisp, he]
+
+theorem isErrorValue_reposition (e : E) (p : Cursor) : isErrorValue (reposition e p) = true := by
+  cases e with
+  | lisp x q => cases q <;> rfl
+  | _ => rfl
+
+theorem isErrorValue_newGoError (id : Nat) (n : String) (e : E) : isErrorValue (newGoError id n e) = true := by
+  unfold newGoError; split <;> rfl
+
+theorem isLoop_reposition {e t : E} (p : Cursor) (he : isErrorValue e = true) (hf : Flat e = true)
+    (ht : isNil t = false) (h : isLoop e t = .ok true) : isLoop (reposition e p) t = .ok true := by
+  cases e with
+  | val v => simp [isErrorValue] at he
+  | lisp x q =>
+    cases q with
+    | some q => exact h
+    | none =>
+      have hl : isLisp x = false := by simp [Flat] at hf; exact hf.1
+      exact isLoop_lisp_cursor none p hl ht h
+  | sentinel i m => exact isLoop_lisp_step p he rfl ht h
+  | strErr i m => exact isLoop_lisp_step p he rfl ht h
+  | wrap i n x => exact isLoop_lisp_step p he rfl ht h
+
+theorem isLoop_newGoError {e t : E} (id : Nat) (n : String) (he : isErrorValue e = true)
+    (ht : isNil t = false) (h : isLoop e t = .ok true) : isLoop (newGoError id n e) t = .ok true := by
+  simp only [newGoError, he, if_true]
+  exact isLoop_lisp_step none rfl rfl ht (isLoop_wrap_step id n he h)
+
+theorem applyFrame_preserves {f : Frame} {e e' t : E} (he : isErrorValue e = true) (hf : Flat e = true)
+    (ht : isNil t = false) (h : isLoop e t = .ok true) (ha : applyFrame f e = .ok e') :
+    isErrorValue e' = true ∧ Flat e' = true ∧ isLoop e' t = .ok true := by
+  cases f with
+  | goErr id n =>
+    simp [applyFrame] at ha; subst ha
+    exact ⟨isErrorValue_newGoError id n e, flat_newGoError id n hf, isLoop_newGoError id n he ht h⟩
+  | repos c =>
+    simp only [applyFrame] at ha
+    have hr := newLispError_eq ha
+    subst hr
+    exact ⟨isErrorValue_reposition e _, flat_reposition _ hf, isLoop_reposition _ he hf ht h⟩
+
+theorem errorsIs_of_error {e t : E} (he : isErrorValue e = true) (ht : isNil t = false) :
+    errorsIs e t = isLoop e t := by
+  have : isNil e = false := by cases e <;> simp_all [isErrorValue, isNil]
+  simp [errorsIs, this, ht]
+
+theorem isNil_false_of_is {e t : E} (he : isErrorValue e = true) (h : errorsIs e t = .ok true) : isNil t = false := by
+  have : isNil e = false := by cases e <;> simp_all [isErrorValue, isNil]
+  cases hn : isNil t
+  · rfl
+  · simp [errorsIs, this, hn] at h
+
+/-- 3. Whatever `errors.Is` finds in an error it still finds after the error went through any context built from
+`NewGoError(name, ·)` and `NewLispError(·, carrier)`: Go errors stay reachable through any depth. -/
+theorem reposition_preserves_is {fs : List Frame} {e r t : E} (he : isErrorValue e = true) (hf : Flat e = true)
+    (h : errorsIs e t = .ok true) (hr : applyFrames fs e = .ok r) : errorsIs r t = .ok true := by
+  have ht := isNil_false_of_is he h
+  rw [errorsIs_of_error he ht] at h
+  suffices isErrorValue r = true ∧ isLoop r t = .ok true by rw [errorsIs_of_error this.1 ht]; exact this.2
+  induction fs generalizing e with
+  | nil => simp [applyFrames] at hr; subst hr; exact ⟨he, h⟩
+  | cons f fs ih =>
+    unfold applyFrames at hr
+    split at hr
+    · next e' ha =>
+      obtain ⟨he', hf', h'⟩ := applyFrame_preserves he hf ht h ha
+      exact ih he' hf' h' hr
+    · cases hr
+
+example : (applyFrames [.goErr 10 "core[f]", .repos (.list (some ⟨2, {}⟩)), .goErr 12 "g", .repos .nil]
+    (.sentinel 1 "x")).bind (fun r => errorsIs r (.sentinel 1 "x")) = .ok true := by decide
+/-- a different sentinel with the same message is not found: reachability is identity, not text -/
+example : (applyFrames [.goErr 10 "core[f]", .repos .nil] (.sentinel 1 "x")).bind
+    (fun r => errorsIs r (.sentinel 2 "x")) = .ok false := by decide
+
+/-! ### 4. `NewGoError` wraps the original (C03) -/
+
+/-- 4a. the Go error a builtin returned is found by `errors.Is` in what `NewGoError` makes of it -/
+theorem newGoError_wraps_original (id k : Nat) (n m : String) :
+    errorsIs (newGoError id n (.sentinel k m)) (.sentinel k m) = .ok true := by
+  simp [newGoError, isErrorValue, errorsIs, isNil, isLoop, goEq, lispIs, isTail]
+
+/-- 4a (general): everything `errors.Is` finds in an error it finds in its `NewGoError` wrapping -/
+theorem newGoError_keeps_is {e t : E} (id : Nat) (n : String) (he : isErrorValue e = true)
+    (h : errorsIs e t = .ok true) : errorsIs (newGoError id n e) t = .ok true := by
+  have ht := isNil_false_of_is he h
+  rw [errorsIs_of_error he ht] at h
+  rw [errorsIs_of_error (isErrorValue_newGoError id n e) ht]
+  exact isLoop_newGoError id n he ht h
+
+/-- 4b. a panic value that is no error: the `Unwrap` chain is `LispError → *fmt.wrapError → *errors.errorString`
+and ends in the `%v` text of the value; the whole message is `name: <%v text>` -/
+theorem newGoError_of_value {e : E} (id : Nat) (n : String) (hv : isErrorValue e = false) :
+    newGoError id n e = .lisp (.wrap id n (.strErr (id + 1) (textOf false e))) none
+    ∧ errorsUnwrap (newGoError id n e) = some (.wrap id n (.strErr (id + 1) (textOf false e)))
+    ∧ errorsUnwrap (.wrap id n (.strErr (id + 1) (textOf false e))) = some (.strErr (id + 1) (textOf false e))
+    ∧ errorsUnwrap (.strErr (id + 1) (textOf false e)) = none
+    ∧ errorString (newGoError id n e) = n ++ ": " ++ textOf false e := by
+  have h1 : newGoError id n e = .lisp (.wrap id n (.strErr (id + 1) (textOf false e))) none := by
+    simp [newGoError, hv]
+  rw [h1]
+  simp [errorsUnwrap, unwrap, isErrorValue, errorString, textOf]
+
+example : errorString (newGoError 0 "core[f]" (.val (.int 5))) = "core[f]: 5" := by decide
+example : errorString (newGoError 0 "core[f]" (.val .nil)) = "core[f]: <nil>" := by decide
+example : errorsIs (newGoError 0 "f" (.sentinel 1 "boom")) (.sentinel 1 "boom") = .ok true := by decide
+
+/-! ### 6. the shape of `Error()` (C17, C19) -/
+
+/-- 6a. with a cursor: `<Position.String()>: <payload under %s>` -/
+theorem errorString_positioned (err : E) (p : PosPtr) :
+    errorString (.lisp err (some p)) = posString p.pos ++ ": " ++ textOf true err := by
+  simp [errorString, textOf]
+
+/-- 6b. without a cursor: the payload under `%v` (`fmt.Sprint`) -/
+theorem errorString_bare (err : E) : errorString (.lisp err none) = textOf false err := by
+  simp [errorString, textOf]
+
+/-- payloads that print the same under `%s` and `%v`: every `error`, strings / keywords, symbols.  NOT
+nil, booleans and integers (`%!s(int=5)` against `5`), and not the collections that contain such values. -/
+def verbAgnostic : E → Bool
+  | .val (.str _) => true
+  | .val (.sym _ _) => true
+  | .val _ => false
+  | _ => true
+
+theorem textOf_verbAgnostic {err : E} (h : verbAgnostic err = true) : textOf true err = textOf false err := by
+  cases err with
+  | val v => cases v <;> simp_all [verbAgnostic, textOf, fmtVal]
+  | lisp x c => cases c <;> simp [textOf]
+  | _ => simp [textOf]
+
+/-- 6. for error, string, keyword and symbol payloads the position prefix is the ONLY difference between the
+text of a positioned and of a position-less delivery of the same object -/
+theorem errorString_shape {err : E} (p : PosPtr) (h : verbAgnostic err = true) :
+    errorString (.lisp err (some p)) = posString p.pos ++ ": " ++ errorString (.lisp err none) := by
+  rw [errorString_positioned, errorString_bare, textOf_verbAgnostic h]
+
+/-- the text after `NewLispError` gave a cursor-less error the position of a carrier -/
+theorem errorString_newLispError {err r : E} {c : Carrier} (h : newLispError (.lisp err none) c = .ok r) :
+    errorString r = match posOf c with
+      | some p => posString p.pos ++ ": " ++ textOf true err
+      | none => textOf false err := by
+  rw [newLispError_eq h]
+  cases hp : posOf c <;> simp [reposition, errorString, textOf]
+
+example : errorString (.lisp (.val (.str "boom")) (some ⟨0, { module := some "m", beginRow := 2, beginCol := 3, row := 4, col := 5 }⟩))
+    = "m§2…4,3…5: boom" := by decide
+example : errorString (.lisp (.val (.str "boom")) none) = "boom" := by decide
+/-- and the other payloads DO differ beyond the prefix: `(throw 5)` reads `5` without and `%!s(int=5)` with a position -/
+example : errorString (.lisp (.val (.int 5)) none) = "5"
+    ∧ errorString (.lisp (.val (.int 5)) (some ⟨0, { beginRow := 1, beginCol := 1, row := 1, col := 1 }⟩))
+      = "§1…1,1…1: %!s(int=5)" := by decide
+example : errorString (.lisp (.val .nil) (some ⟨0, { row := -1 }⟩)) = "§: %!s(<nil>)" := by decide
+
+/-! ### 7. exactly when `LispError.Is` / `errors.Is` panic -/
+
+/-- two lisp values of the same uncomparable dynamic type -/
+def Clash (a b : V) : Prop := a.kind = b.kind ∧ a.kind.comparable = false
+
+/-- 7a. `==` on two lisp values panics exactly for two values of the same uncomparable type -/
+theorem goEqV_panic_iff (a b : V) : goEqV a b = .panic ↔ Clash a b := by
+  cases a <;> cases b <;> simp [goEqV, Clash, V.kind, Kind.comparable]
+
+/-- the lisp value under the `LispError` structs of `e` (no `Unwrap` step) -/
+def directValue : E → Option V
+  | .val v => some v
+  | .lisp x _ => directValue x
+  | _ => none
+
+/-- the lisp value at the end of the `Unwrap` chain: the thrown lisp object, if the chain ends in one -/
+def rootValue : E → Option V
+  | .val v => some v
+  | .lisp x _ => rootValue x
+  | .wrap _ _ inner => if isErrorValue inner then rootValue inner else none
+  | _ => none
+
+def ClashO (oa ob : Option V) : Prop := ∃ a b, oa = some a ∧ ob = some b ∧ Clash a b
+
+theorem goEq_panic {x y : E} (h : goEq x y = .panic) : ClashO (directValue x) (directValue y) := by
+  induction x generalizing y with
+  | val a =>
+    cases y with
+    | val b => exact ⟨a, b, rfl, rfl, (goEqV_panic_iff a b).1 (by simpa [goEq] using h)⟩
+    | _ => simp [goEq] at h
+  | lisp x1 c1 ih =>
+    cases y with
+    | lisp y1 c2 =>
+      simp only [goEq] at h
+      cases h1 : goEq x1 y1 with
+      | panic => simpa [directValue] using ih h1
+      | ok b => simp [h1] at h
+    | _ => simp [goEq] at h
+  | sentinel i m => cases y <;> simp [goEq] at h
+  | strErr i m => cases y <;> simp [goEq] at h
+  | wrap i n z _ => cases y <;> simp [goEq] at h
+
+theorem isTail_panic {x t : E} (h : isTail x t = .panic) : ClashO (directValue x) (directValue t) := by
+  cases t with
+  | lisp y q => simpa [directValue] using goEq_panic (by simpa [isTail] using h)
+  | _ => simp [isTail] at h
+
+theorem lispIs_panic {x t : E} (h : lispIs x t = .panic) : ClashO (directValue x) (directValue t) := by
+  induction x with
+  | lisp x1 c ih =>
+    rw [lispIs] at h
+    split at h
+    · cases h
+    · cases h1 : lispIs x1 t with
+      | panic => simpa [directValue] using ih h1
+      | ok b =>
+        cases b
+        · simp only [h1] at h; exact isTail_panic h
+        · simp [h1] at h
+  | val v => simp only [lispIs] at h; split at h; cases h; exact isTail_panic h
+  | sentinel i m => simp only [lispIs] at h; split at h; cases h; exact isTail_panic h
+  | strErr i m => simp only [lispIs] at h; split at h; cases h; exact isTail_panic h
+  | wrap i n z _ => simp only [lispIs] at h; split at h; cases h; exact isTail_panic h
+
+theorem rootValue_of_directValue {x : E} {a : V} (h : directValue x = some a) : rootValue x = some a := by
+  induction x with
+  | val v => simpa [directValue, rootValue] using h
+  | lisp x1 c ih => exact ih (by simpa [directValue] using h)
+  | _ => simp [directValue] at h
+
+theorem ClashO.root {x : E} {ob : Option V} (h : ClashO (directValue x) ob) : ClashO (rootValue x) ob := by
+  obtain ⟨a, b, ha, hb, hc⟩ := h
+  exact ⟨a, b, rootValue_of_directValue ha, hb, hc⟩
+
+theorem isLoop_panic {e t : E} (h : isLoop e t = .panic) : ClashO (rootValue e) (directValue t) := by
+  induction e with
+  | lisp x c ih =>
+    rw [isLoop] at h
+    cases h0 : goEq (.lisp x c) t with
+    | panic => exact (goEq_panic h0).root
+    | ok b0 =>
+      cases b0
+      · simp only [h0] at h
+        cases h1 : lispIs x t with
+        | panic => have := (lispIs_panic h1).root; simpa [rootValue] using this
+        | ok b1 =>
+          cases b1
+          · simp only [h1] at h
+            split at h
+            · simpa [rootValue] using ih h
+            · cases h
+          · simp [h1] at h
+      · simp [h0] at h
+  | wrap i n z ih =>
+    rw [isLoop] at h
+    cases h0 : goEq (.wrap i n z) t with
+    | panic => exact (goEq_panic h0).root
+    | ok b0 =>
+      cases b0
+      · simp only [h0] at h
+        split at h
+        · next hz => simpa [rootValue, hz] using ih h
+        · cases h
+      · simp [h0] at h
+  | val v =>
+    simp only [isLoop] at h
+    cases h0 : goEq (.val v) t with
+    | panic => exact (goEq_panic h0).root
+    | ok b0 => simp [h0] at h
+  | sentinel i m =>
+    simp only [isLoop] at h
+    cases h0 : goEq (.sentinel i m) t with
+    | panic => exact (goEq_panic h0).root
+    | ok b0 => simp [h0] at h
+  | strErr i m =>
+    simp only [isLoop] at h
+    cases h0 : goEq (.strErr i m) t with
+    | panic => exact (goEq_panic h0).root
+    | ok b0 => simp [h0] at h
+
+/-- 7b. `errors.Is(e, t)` can only panic when the `Unwrap` chain of `e` ends in a lisp value and the target is a
+`LispError` of a lisp value of the same uncomparable dynamic type (list, vector, hash-map, set) -/
+theorem errorsIs_panic {e t : E} (h : errorsIs e t = .panic) : ClashO (rootValue e) (directValue t) := by
+  unfold errorsIs at h
+  split at h
+  · cases h
+  · exact isLoop_panic h
+
+/-- 7c. it cannot panic otherwise -/
+theorem errorsIs_no_panic_of_comparable {e t : E}
+    (h : ∀ a b, rootValue e = some a → rootValue t = some b → a.kind = b.kind → a.kind.comparable = true) :
+    errorsIs e t ≠ .panic := by
+  intro hp
+  obtain ⟨a, b, ha, hb, hk, hc⟩ := errorsIs_panic hp
+  have := h a b ha (rootValue_of_directValue hb) hk
+  simp [this] at hc
+
+/-- in particular an error whose thrown object is nil, a boolean, a number, a string, a keyword, a symbol or a Go
+error can be tested against ANY target -/
+theorem errorsIs_no_panic_of_comparable_payload {e : E}
+    (h : ∀ a, rootValue e = some a → a.kind.comparable = true) (t : E) : errorsIs e t ≠ .panic :=
+  errorsIs_no_panic_of_comparable fun a _ ha _ _ => h a ha
+
+theorem lispIs_nil {x t : E} (hx : isLisp x = false) (ht : isNil t = true) : lispIs x t = .ok (isNil x) := by
+  cases x <;> simp_all [isLisp, lispIs]
+
+/-- 7d. `LispError.Is` (receiver payload `err`, not itself a `LispError`): panics exactly when both payloads are
+lisp values of one uncomparable type -/
+theorem lispIs_panic_iff {err t : E} (hl : isLisp err = false) :
+    lispIs err t = .panic ↔ ∃ a b c, err = .val a ∧ t = .lisp (.val b) c ∧ Clash a b := by
+  constructor
+  · intro h
+    cases ht : isNil t
+    · rw [lispIs_plain hl ht] at h
+      cases t with
+      | lisp y q =>
+        simp only [isTail] at h
+        cases err with
+        | val a =>
+          cases y with
+          | val b => exact ⟨a, b, q, rfl, rfl, (goEqV_panic_iff a b).1 (by simpa [goEq] using h)⟩
+          | _ => simp [goEq] at h
+        | lisp x c => simp [isLisp] at hl
+        | _ => cases y <;> simp [goEq] at h
+      | _ => simp [isTail] at h
+    · rw [lispIs_nil hl ht] at h; cases h
+  · rintro ⟨a, b, c, rfl, rfl, hc⟩
+    simp [lispIs, isNil, isTail, goEq, (goEqV_panic_iff a b).2 hc]
+
+theorem isLoop_clash {e : E} {a b : V} (c : Cursor) (he : isErrorValue e = true) (hf : Flat e = true)
+    (hr : rootValue e = some a) (hc : Clash a b) : isLoop e (.lisp (.val b) c) = .panic := by
+  induction e with
+  | val v => simp [isErrorValue] at he
+  | sentinel i m => simp [rootValue] at hr
+  | strErr i m => simp [rootValue] at hr
+  | wrap i n z ih =>
+    cases hz : isErrorValue z
+    · simp [rootValue, hz] at hr
+    · simp only [rootValue, hz, if_true] at hr
+      simp only [Flat] at hf
+      simp [isLoop, goEq, hz, ih hz hf hr]
+  | lisp x p ih =>
+    simp only [Flat, Bool.and_eq_true, Bool.not_eq_true'] at hf
+    simp only [rootValue] at hr
+    cases x with
+    | val a' =>
+      simp only [rootValue, Option.some.injEq] at hr; subst hr
+      simp [isLoop, goEq, (goEqV_panic_iff a' b).2 hc]
+    | sentinel i m => simp [rootValue] at hr
+    | strErr i m => simp [rootValue] at hr
+    | lisp y q => simp [isLisp] at hf
+    | wrap i n z =>
+      have := ih rfl hf.2 hr
+      simp [isLoop, goEq, lispIs, isNil, isTail, isErrorValue] at this ⊢
+      exact this
+
+/-- 7e. (exact, for the objects the package builds) `errors.Is(e, LispError{b})` panics exactly when the thrown object
+of `e` and `b` are lisp values of one uncomparable type — `errors.Is(err, err)` included -/
+theorem errorsIs_panic_iff {e : E} (b : V) (c : Cursor) (he : isErrorValue e = true) (hf : Flat e = true) :
+    errorsIs e (.lisp (.val b) c) = .panic ↔ ∃ a, rootValue e = some a ∧ Clash a b := by
+  constructor
+  · intro h
+    obtain ⟨a, b', ha, hb, hc⟩ := errorsIs_panic h
+    simp only [directValue, Option.some.injEq] at hb; subst hb
+    exact ⟨a, ha, hc⟩
+  · rintro ⟨a, ha, hc⟩
+    rw [errorsIs_of_error he rfl]
+    exact isLoop_clash c he hf ha hc
+
+/-- the minimal panicking instance: an empty list thrown, asked whether it is itself -/
+example : errorsIs (.lisp (.val (.list [] none)) none) (.lisp (.val (.list [] none)) none) = .panic := by decide
+example : lispIs (.val (.list [] none)) (.lisp (.val (.list [] none)) none) = .panic := by decide
+example : errorsIs (newGoError 0 "f" (.lisp (.val (.map [] none)) none)) (.lisp (.val (.map [] none)) none) = .panic := by
+  decide
+/-- different uncomparable types do not panic, nor does anything comparable -/
+example : errorsIs (.lisp (.val (.list [] none)) none) (.lisp (.val (.vec [] none)) none) = .ok false := by decide
+example : errorsIs (.lisp (.val (.str "ʞa")) none) (.lisp (.val (.str "ʞa")) (some ⟨1, {}⟩)) = .ok true := by decide
+/-- symbols are equal only with the same cursor POINTER: the same `(throw 'a)` read at two places differs -/
+example : errorsIs (.lisp (.val (.sym "a" (some ⟨0, {}⟩))) none) (.lisp (.val (.sym "a" (some ⟨1, {}⟩))) none) = .ok false := by
+  decide
+example : errorsIs (.lisp (.val (.sym "a" (some ⟨0, {}⟩))) none) (.lisp (.val (.sym "a" (some ⟨0, {}⟩))) none) = .ok true := by
+  decide
+
+/-! ### the objects the package builds are `Flat` -/
+
+theorem flat_val (v : V) : Flat (.val v) = true := rfl
+theorem flat_sentinel (i : Nat) (m : String) : Flat (.sentinel i m) = true := rfl
+
+theorem flat_throw {a r : E} (ha : Flat a = true) (h : throw a = .ok r) : Flat r = true := by
+  unfold throw at h
+  split at h
+  · cases h; exact ha
+  · exact flat_newLispError ha h
+
+theorem flat_applyFrames {fs : List Frame} {e r : E} (he : Flat e = true) (h : applyFrames fs e = .ok r) :
+    Flat r = true := by
+  induction fs generalizing e with
+  | nil => simp [applyFrames] at h; subst h; exact he
+  | cons f fs ih =>
+    unfold applyFrames at h
+    split at h
+    · next e' ha =>
+      cases f with
+      | goErr id n => simp [applyFrame] at ha; subst ha; exact ih (flat_newGoError id n he) h
+      | repos c => exact ih (flat_newLispError he ha) h
+    · cases h
+
+theorem flat_errorsUnwrap {e u : E} (he : Flat e = true) (h : errorsUnwrap e = some u) : Flat u = true := by
+  cases e with
+  | lisp x c =>
+    simp only [errorsUnwrap, unwrap] at h
+    split at h
+    · cases h; simp [Flat] at he; exact he.2
+    · cases h
+  | wrap i n z =>
+    simp only [errorsUnwrap] at h
+    split at h
+    · cases h; simpa [Flat] using he
+    · cases h
+  | _ => simp [errorsUnwrap] at h
+
 end LispModel.LispError
